@@ -209,15 +209,6 @@ class StmtMixin:
                 fail(node, f'{n!r} is updated in place but shares its value with another variable')
             self.root.frozen.add(n)
 
-    def escape(self, value, node):
-        """a value handed to a constructor / container / caller: a variable that is updated in place must have been
-        created in the statement list that contains this statement and must not be updated after it"""
-        for n in ast.walk(value):
-            if isinstance(n, ast.Name) and n.id in self.root.mutated:
-                sites = self.root.mutation_lines.get(n.id, [])
-                if any(ln >= node.lineno for ln in sites) and n.id not in self.root.escape_ok:
-                    fail(node, f'{n.id!r} is updated in place after it was stored / passed on')
-
     def augassign(self, s, env):
         pre = []
         e = self.expr(s.value, env, pre)
